@@ -972,3 +972,21 @@ def req_C15(r, tier):
         out.append(("eds.verify_ph_strict:ctx%d" % n, "eds.verify_ph_strict %s %s %s %s" % (ed_pub(sd).hex(), "6d", hx(bytes(n)), sg.hex())))
         out.append(("eds.sign_ph:ctx%d" % n, "eds.sign_ph %s %s %s" % (sd.hex(), "6d", hx(bytes(n)))))
     return out
+
+
+# ------------------------------------------------------------------ C11: the union stream, run on the `checked` profile (overflow checks +
+# debug assertions) and on the release profile; both must agree with the model and never print `panic`
+
+def req_C11(r, tier):
+    out = []
+    out += req_C01(r, tier)
+    out += req_C02(r, tier)
+    small = "quick"
+    out += req_C03(r, small)
+    c4 = req_C04(r, small)
+    out += [x for x in c4 if "n=5" not in x[0] and "n=79" not in x[0] and "n=8" not in x[0][-5:]][: sz(tier, 1500, 100000)]
+    out += req_C06(r, small)
+    out += req_C07(r, small)
+    out += req_C08(r, small)[: sz(tier, 400, 5000)]
+    out += req_C09(r, small)[: sz(tier, 300, 5000)]
+    return out
